@@ -14,10 +14,10 @@ tests=$(cd /repo && timeout 1200 /venv/bin/python -m pytest -q -p no:cacheprovid
 (cd /repo && timeout 300 /venv/bin/python "$OLDPWD/$d/demo.py" >/dev/null 2>&1); mutated=$?
 res=""
 for c in $checks; do
-  out=$(timeout 2400 /venv/bin/python harness/check.py $c 2>/dev/null); rc=$?
+  out=$(VERIF_OUT=/tmp/mut/scratch_repo_mode timeout 2400 /venv/bin/python harness/check.py $c 2>/dev/null); rc=$?
   v=$(echo "$out" | grep VIOLATION | head -1 | sed 's/VIOLATION property=//')
   res="$res | $c rc=$rc ${v}"
-  [ $rc -eq 1 ] && cp replay/${c}_quick_0.json $d/replay_$c.json 2>/dev/null
+  [ $rc -eq 1 ] && cp /tmp/mut/scratch_repo_mode/replay/${c}_quick_0.json $d/replay_$c.json 2>/dev/null
 done
 echo "$id: demo clean=$clean mutated=$mutated; tests: $tests $res"
 python3 - "$d" "$id" "$prop" "$clean" "$mutated" "$tests" "$res" <<'PY'
